@@ -76,7 +76,7 @@ CLAIM = dict(
           "C14_pkg_conditions_unstripped proves for {use_game_loop=true} packages; C14_tokens_spec_any_newline / "
           "C14_pkg_conditions_unstripped_any_newline / C14_prepended_lines_chunking: the same without any condition on the "
           "final newline of a package (the separate newline line build.py inserts is lexed as if glued to the text); "
-          "C14_strip_lexical / C14_parse_extent / C14_strip_ranges_ok / C14_stripped_pkg: packages embedded without their game "
+          "C14_strip_lexical / C14_parse_extent / C14_strip_ranges_ok / C14_stripped_pkg / C14_pkg_conditions_stripped: packages embedded without their game "
           "loop have exactly the file's tokens outside the ranges build.py cuts, no hypothesis (the parser model's statement "
           "extents are proved block-balanced, one specification per parse function); C14_strip_ranges_spec / "
           "C14_stripped_pkg_spec_clean_partial: and these are the file's tokens minus its top-level game-loop definitions, "
